@@ -6,6 +6,7 @@ From PV Require Import Base.Bytes Keystore.Locks Keystore.Load.
 From PV Require Generated.GenKeystore Generated.GenSchema.
 From PV Require Import Chain.SchemaProps.
 From PV Require Import Chain.Model Chain.Run Node.Model Node.Proofs Node.Chain.
+From PV Require Import Driver.Tok Driver.Driver Node.DriverTie.
 Import ListNotations.
 
 (** Go's sync.RWMutex as a transition system (a pending writer blocks new readers): if no thread's program
@@ -75,3 +76,19 @@ Print Assumptions C20_keystore_save_takes_write_lock.
 Theorem C20_keepers_hold_no_state : forallb keeper_field_stateless GenSchema.keeper_fields = true.
 Proof. exact keepers_stateless. Qed.
 Print Assumptions C20_keepers_hold_no_state.
+
+Local Open Scope string_scope.
+Local Open Scope list_scope.
+(** the tie to what is run: a QH line of the history-file interpreter (a query at a height, served at any point of any
+    protocol-respecting history, inside a block or not) is answered from the committed version — the state [run] computes from
+    the completed blocks — never from the block in progress *)
+Theorem C20_driver_query_reads_committed : forall st (ls : list (list tok)) ht h q k,
+  d_versions st = [] -> legal_run (st, false) ls = true ->
+  parse_dec ht = Some h -> qheight (d_base st) h = Some k ->
+  snd (step_line (drive st ls) (b "QH" :: ht :: q)) =
+  match committed_state (oracles_of st) (d_chain st) (ccompleted (list tok) (events_of st ls)) k with
+  | Some c => dquery (frame_of st) c q
+  | None => [b "Q err height"]
+  end.
+Proof. exact driver_query_reads_committed. Qed.
+Print Assumptions C20_driver_query_reads_committed.
